@@ -1,5 +1,6 @@
 import Driver.Proto
 import PqModel.CopyPath
+import PqModel.Splice
 
 /-! Ops for C11: the decision cascade of `Writer.WriteRowGroup`.
 
@@ -141,6 +142,41 @@ def showStep : Step Unit → String
   | .reencode rgs => s!"e:{numRowsL rgs}"
   | .rows rg => s!"r:{rg.numRows}"
 
+/-! `copy.splice <start> <chunks>` -> `ok <chunks'> <blooms>` | `err layout`
+  chunks : `;`-joined `dict|n,data,totalCompressed,totalUncompressed,numValues,numRows,bloomLength,locs`
+           (the SOURCE chunk metadata, locs `offset.size.firstRow+…` or `-`)
+  chunks': the metadata `rowGroupMetasMixed` gives when all of them are spliced, back to back, from
+           file offset `start` (same fields without bloomLength); blooms: per column `offset.length`
+           or `n`, placed after the last chunk -/
+
+def parseLoc? (s : String) : Option PqModel.Layout.PageLoc :=
+  match s.splitOn "." with
+  | [a, b, c] => do some ⟨← parseNat? a, ← parseNat? b, ← parseNat? c⟩
+  | _ => none
+
+def parseSrcChunk? (s : String) : Option (PqModel.Layout.ChunkMeta × Nat) :=
+  match s.splitOn "," with
+  | [d, data, tc, tu, nv, nr, bl, locs] => do
+    let dict ← (if d == "n" then some none else (parseNat? d).map some)
+    some ({ dictOffset := dict, dataOffset := ← parseNat? data, totalCompressed := ← parseNat? tc,
+            totalUncompressed := ← parseNat? tu, numValues := ← parseNat? nv, numRows := ← parseNat? nr,
+            locs := ← (plusList locs).mapM parseLoc? }, ← parseNat? bl)
+  | _ => none
+
+def showChunkMeta (m : PqModel.Layout.ChunkMeta) : String :=
+  let d := match m.dictOffset with | none => "n" | some x => toString x
+  let locs := if m.locs.isEmpty then "-" else
+    "+".intercalate (m.locs.map fun l => s!"{l.offset}.{l.size}.{l.firstRow}")
+  s!"{d},{m.dataOffset},{m.totalCompressed},{m.totalUncompressed},{m.numValues},{m.numRows},{locs}"
+
+def spliceAll (start : Nat) (cs : List (PqModel.Layout.ChunkMeta × Nat)) : Option String := do
+  let metas ← PqModel.Splice.rowGroupMetasMixed start (cs.map fun c => .copied c.1)
+  -- the file offset after the chunks: every spliced chunk advances it by dict + data bytes
+  let endOff ← cs.foldlM (fun off c => (PqModel.Splice.loadCopied c.1).map fun cc => (PqModel.Splice.writeCopied off cc).2) start
+  let blooms := (PqModel.Splice.placeBlooms endOff (cs.map (·.2))).1
+  let showB : Option (Nat × Nat) → String := fun b => match b with | none => "n" | some (o, l) => s!"{o}.{l}"
+  some s!"{";".intercalate (metas.map showChunkMeta)} {",".intercalate (blooms.map showB)}"
+
 def handle (toks : List String) : Option String :=
   match toks with
   | ["copy.choose", v, g, cols, rg] => some <|
@@ -149,6 +185,12 @@ def handle (toks : List String) : Option String :=
       let steps := plan v g (rg.depth + 1) rg
       s!"ok {showPath (choosePathV v g rg)} {copyCount steps} {reencodeCount steps} {showList showStep steps}"
     | _, _, _ => "bad-op"
+  | ["copy.splice", start, chunks] => some <|
+    match parseNat? start, (chunks.splitOn ";").mapM parseSrcChunk? with
+    | some st, some cs => match spliceAll st cs with
+      | some r => "ok " ++ r
+      | none => "err layout"
+    | _, _ => "bad-op"
   | ["copy.mirror"] => some (match currentMirror with | .asIs => "ok asis" | .repaired => "ok repaired")
   | _ => none
 
